@@ -31,7 +31,13 @@
   threading of `Compress`/`Validate` through containers and wrappers is observable.
 
   Panics, allocation aborts and non-terminating loops are explicit outcomes (`Fail`).
-  Every `with_capacity(len)` driven by a length prefix is recorded as an allocation event `Ev`.
+  Every `with_capacity(capped_capacity(len))` driven by a length prefix is recorded as an allocation
+  event `Ev`.  NOT recorded: the later growth of the buffer while elements are pushed (`RawVec`
+  amortised doubling: the capacity never exceeds twice the number of elements actually read, and
+  every element of non-zero width has consumed at least one input byte), the per-node allocations of
+  `LinkedList` / `BTreeMap` / `BTreeSet` (one per element read), and the temporary `Vec<&Self>` of a
+  derived `batch_check`.  (State of /repo: after 42c2698 `capped_capacity`, 79b530a `len: usize`
+  in `LinkedList`.)
 
   Mathlib-free: linked into the `arkdrv` executable.
 -/
@@ -436,7 +442,14 @@ def readExact (n : Nat) : M (List Nat) := fun s =>
   if s.inp.length < n then .fail (.err .io) s
   else .ok (s.inp.take n) { s with inp := s.inp.drop n }
 
-/-- `Vec::with_capacity(len)` / `VecDeque::with_capacity(len)` (both `RawVec::with_capacity`):
+/-- `MAX_PREALLOCATION_BYTES` (impls.rs) -/
+def maxPrealloc : Nat := 4096
+
+/-- `capped_capacity::<T>(len) = len.min(MAX_PREALLOCATION_BYTES / size_of::<T>().max(1))`:
+    what `Vec` / `VecDeque` deserialisation pre-allocates on the word of the length prefix -/
+def cappedCapacity (esz len : Nat) : Nat := min len (maxPrealloc / max esz 1)
+
+/-- `Vec::with_capacity(n)` / `VecDeque::with_capacity(n)` (both `RawVec::with_capacity`):
     no allocation for zero-sized elements or zero length; `capacity overflow` panic when the byte
     size exceeds `isize::MAX`; abort when the allocator refuses. -/
 def withCapacity (L : Limits) (len esz : Nat) : M Unit := fun s =>
@@ -489,7 +502,7 @@ def batchM (v : Validate) (ok : Bool) : M Unit :=
 def decVecU8 (L : Limits) : M (List Nat) := do
   let len ← decU 8
   if len ≥ 2 ^ 64 then failM (.err .notenough)     -- `u64 → usize` `try_into` (never fails on 64-bit)
-  withCapacity L len 1
+  withCapacity L (cappedCapacity 1 len) 1
   repeatM (decU 1) len
 
 mutual
@@ -535,22 +548,20 @@ def decode (L : Limits) : Ty → Compress → Validate → M Val
   | .vec esz t, c, v => do
     let len ← decU 8
     if len ≥ 2 ^ 64 then failM (.err .notenough)   -- `try_into::<usize>()`: never fails on 64-bit
-    withCapacity L len esz
+    withCapacity L (cappedCapacity esz len) esz
     let vs ← loopM L (zeroWidth t) (decode L t c .no) len
     batchM v (vs.all (fun x => check t x))
     pure (.seq vs)
   | .deq esz t, c, v => do
     let len ← decU 8
     if len ≥ 2 ^ 64 then failM (.err .notenough)
-    withCapacity L len esz
+    withCapacity L (cappedCapacity esz len) esz
     let vs ← loopM L (zeroWidth t) (decode L t c .no) len
     batchM v (vs.all (fun x => check t x))
     pure (.seq vs)
   | .list t, c, v => do
     let len ← decU 8
-    -- `let len = u64 .try_into()?; … Self::new(); for _ in 0..len`: nothing forces `usize`, the
-    -- integer-literal fallback makes `len : i32`, so lengths above `i32::MAX` are refused
-    if len > 2 ^ 31 - 1 then failM (.err .notenough)
+    if len ≥ 2 ^ 64 then failM (.err .notenough)   -- `let len: usize = … .try_into()`: never fails on 64-bit
     let vs ← loopM L (zeroWidth t) (decode L t c .no) len
     batchM v (vs.all (fun x => check t x))
     pure (.seq vs)
